@@ -675,6 +675,7 @@ class FnTrans:
             f = s.m.funcs.get(cname)
             target = s.gname(cname)
             if MODEL == 'ie' and cname in LIBM and cname not in s.em.rename: target = 'ie_' + cname
+            if (s.name, cname) in s.em.callrename: target = s.em.callrename[(s.name, cname)]; f = None
             if f and not f.get('vararg') and len(f['params']) == len(args):
                 # cast args to declared param types (pointer type mismatches are legal in IR via bitcast, be defensive)
                 av = [f"({s.em.ctype(pt)}){a}" if isinstance(pt, Ptr) else a for a, (pt, _) in zip(av, f['params'])]
@@ -892,13 +893,14 @@ def const_init(m, em, ft, ty, lx):
         return '{' + ','.join(items) + '}'
     return ft.value(lx, ty)
 
-def translate(text, roots=None, rename=None, stubs=(), model='bit', shrink=(), decls_only=False):
+def translate(text, roots=None, rename=None, stubs=(), model='bit', shrink=(), decls_only=False, callrename=None):
     global MODEL
     MODEL = model
     m = parse_module(text) if isinstance(text, str) else text
     rename = dict(rename or {}); rename.setdefault('bcmp', 'memcmp')
     em = Emit(m, rename)
     em.shrink = list(shrink)
+    em.callrename = dict(callrename or {})
     em.used = set()
     # reachability from roots
     defs = [n for k, n in m.order if k == 'f']
